@@ -23,7 +23,7 @@ Hypothesis eqb_le : forall u v, f_eqb F u v = true -> f_ltb F v u = false.
 
 Theorem selection_primitive_generic_agree meth s1 d1 s2 d2 (m : list T) (n : N) sp dp mp sg dg mg M0 :
   meth = Single \/ meth = Complete ->
-  Forall (fun v => f_ltb F v (f_max F) = true) m ->
+  Forall (fun v => f_ltb F v (f_inf F) = true) m ->
   prologue p m n = Ok M0 ->
   primitive_with (kops_of F meth) p meth s1 d1 m n = Ok (sp, dp, mp) ->
   generic_with (kops_of F meth) p meth s2 d2 m n = Ok (sg, dg, mg) ->
@@ -36,7 +36,7 @@ Proof.
   { unfold square_all. destruct Hm as [-> | ->]; cbn [kops_of k_sq on_squares]; apply map_id. }
   apply (@primitive_generic_agree T (kops_of F meth) p meth ltb_irrefl ltb_trans ltb_negtrans eqb_refl eqb_le) with
     (s1 := s1) (d1 := d1) (s2 := s2) (d2 := d2) (m := m) (n := n) (sp := sp) (mp := mp) (sg := sg) (mg := mg) (M0 := M0).
-  - intros va vb md sa sb sx Ha Hb _. destruct Hm as [-> | ->]; cbn [kops_of k_upd k_ltb k_max] in *; cbn.
+  - intros va vb md sa sb sx Ha Hb _. destruct Hm as [-> | ->]; cbn [kops_of k_upd k_ltb k_inf] in *; cbn.
     + destruct (f_ltb F va vb); assumption.
     + destruct (f_ltb F vb va); assumption.
   - intros _ va vb md sa sb sx _ _ _. destruct Hm as [-> | ->]; cbn [kops_of k_upd k_ltb]; cbn.
